@@ -17,7 +17,7 @@ import (
 func init() {
 	p := Registry["C07"]
 	p.Roles["orders"] = Role{N: func(t string) int { return tierN(t, 8, 96) }, Case: c07Orders}
-	p.Rule += " Role orders: every sequential order of the six events Begin/write/Commit of two snapshot transactions on one key in which both have begun before either commits (the write of one may come after the Commit of the other, a transaction may stay completely idle between its Begin and the competitor's Commit), for every pair of levels from {RepeatableRead, Serializable}, on an existing, a deleted and a never-written key, writes being Set or Delete, other reads in between or not, inline and through the server: exactly the first Commit succeeds, the second fails with ErrTxSerialization and the key holds the winner's value."
+	p.Rule += " Role orders: every sequential order of the six events Begin/write/Commit of two snapshot transactions on one key in which both have begun before either commits (the write of one may come after the Commit of the other, a transaction may stay completely idle between its Begin and the competitor's Commit), for every pair of levels from {RepeatableRead, Serializable}, on an existing, a deleted and a never-written key, writes being Set, Delete or Create-Write-Close (each transaction also writes a key of its own), other reads in between or not, inline and through the server: exactly the first Commit succeeds, the second fails with ErrTxSerialization and the key holds the winner's value, also for a ReadUncommitted transaction begun afterwards, which must not see the key only the loser wrote either."
 }
 
 // c07Orders enumerates the orders of B1 W1 C1 B2 W2 C2 with B<W<C per transaction and both
@@ -61,7 +61,7 @@ func c07Orders(tier string, seed int64, idx int, scratch string) rt.CaseResult {
 	for oi, order := range orders {
 		for _, levels := range [][2]int{{2, 2}, {2, 3}, {3, 2}, {3, 3}} {
 			for _, keyState := range []string{"existing", "never-written", "deleted"} {
-				for _, writes := range [][2]string{{"set", "set"}, {"set", "delete"}, {"delete", "set"}} {
+				for _, writes := range [][2]string{{"set", "set"}, {"set", "delete"}, {"delete", "set"}, {"create", "set"}, {"set", "create"}} {
 					n++
 					// every plan is run once by the inline client and once through the server
 					if half := int64(tierN(tier, 8, 96) / 2); (int64(n)+seed)%half != int64(idx/2) {
@@ -94,10 +94,27 @@ func c07Orders(tier string, seed int64, idx int, scratch string) rt.CaseResult {
 								return c
 							}
 						case 'W':
-							if writes[t] == "set" {
+							switch writes[t] {
+							case "set":
 								err = txs[t].Set(ctxBg, key, vals[t])
-							} else {
+							case "create":
+								var f fs_db.File
+								f, err = txs[t].Create(ctxBg, key)
+								if err == nil {
+									_, err = f.Write(vals[t])
+									if cerr := f.Close(); err == nil {
+										err = cerr
+									}
+								}
+								if err == nil {
+									// the loser also writes a key of its own: nobody may ever see it
+									err = txs[t].Set(ctxBg, key+"-only-"+ev[1:], vals[t])
+								}
+							default:
 								err = txs[t].Delete(ctxBg, key)
+							}
+							if err == nil && writes[t] == "set" {
+								err = txs[t].Set(ctxBg, key+"-only-"+ev[1:], vals[t])
 							}
 							if err != nil {
 								c.Violate("write-in-transaction-failed", err.Error(), plan)
@@ -130,8 +147,25 @@ func c07Orders(tier string, seed int64, idx int, scratch string) rt.CaseResult {
 						return c
 					}
 					b, gerr := env.DB.Get(ctxBg, key)
-					if writes[first] == "set" && (gerr != nil || !bytes.Equal(b, vals[first])) || writes[first] == "delete" && seqrun.Class(gerr) != refmodel.NotFound {
+					if writes[first] != "delete" && (gerr != nil || !bytes.Equal(b, vals[first])) || writes[first] == "delete" && seqrun.Class(gerr) != refmodel.NotFound {
 						c.Violate("winner-not-in-effect sequential-order", fmt.Sprintf("order %v: after the two Commits the key reads %s (%v); the winner (transaction %d) did a %s", order, seqrun.Describe(b), gerr, first+1, writes[first]), plan)
+						return c
+					}
+					// none of the loser's writes becomes visible - not to a ReadUncommitted reader either
+					ru, err := env.DB.Begin(ctxBg, fs_db.IsoLevelReadUncommitted)
+					if err != nil {
+						c.Violate("begin-failed", err.Error(), plan)
+						return c
+					}
+					rb, rerr := ru.Get(ctxBg, key)
+					_, lerr := ru.Get(ctxBg, fmt.Sprintf("%s-only-%d", key, second+1))
+					ru.Rollback(ctxBg)
+					if writes[first] != "delete" && (rerr != nil || !bytes.Equal(rb, vals[first])) || writes[first] == "delete" && seqrun.Class(rerr) != refmodel.NotFound {
+						c.Violate("loser-visible-to-read-uncommitted sequential-order", fmt.Sprintf("order %v: after the loser's Commit failed a ReadUncommitted transaction reads %s (%v) for the contended key; the winner (transaction %d) did a %s", order, seqrun.Describe(rb), rerr, first+1, writes[first]), plan)
+						return c
+					}
+					if writes[second] != "delete" && seqrun.Class(lerr) != refmodel.NotFound {
+						c.Violate("loser-visible-to-read-uncommitted sequential-order own-key", fmt.Sprintf("order %v: a key that only the loser wrote is readable by a ReadUncommitted transaction after the loser's Commit failed (%v)", order, lerr), plan)
 						return c
 					}
 					c.AddDistinct(fmt.Sprintf("%s/order=%d/levels=%v/key=%s/writes=%v", modeName(mode), oi, levels, keyState, writes))
